@@ -35,6 +35,8 @@ def run(ctx):
         closure(ctx, kind, exe, "n4l3", [1, 2, 1, 2], 3, props)
         closure(ctx, kind, exe, "n5l2", [2, 1, 2, 1, 3], 2, props)
         closure(ctx, kind, exe, "n6l1", [2, 1, 2, 1, 3, 1], 1, props)
+        # objects set up with the CSTL_*_INITIALIZER macros instead of the init functions: same closure, same model
+        closure(ctx, kind, build(ctx, "drv_" + kind[0] + "_macro", kind[3], kind[4], defs=["USE_INITIALIZER"]), "n4l3-macro", [1, 2, 1, 2], 3, props)
         steps, n = 20000, 100
     # directed histories beyond the closure: long lists (17..64 nodes) in the orders where merge sort's halves do
     # not interleave (descending, rotated at the middle), ascending, organ pipe, random; after the sort the tail
